@@ -14,7 +14,7 @@ case "$id" in
   C16) syncpk="protocol/binary,internal/frame,internal/plugin,internal/concurrent"; logpk="plugin" ;;
   C18) syncpk="protocol/binary,internal/frame,internal/plugin,internal/concurrent" ;;
   C20) maprange="compile,internal/compare,internal/git" ;;
-  C10) maprange="compile,gen,internal/plugin,plugin" ;;
+  C10) maprange="compile,gen,internal/plugin,plugin,." ;;
   C17) maprange="gen" ;;
 esac
 if [ -n "$maprange$syncpk$logpk" ]; then
